@@ -145,6 +145,8 @@ def replay(verdict, exe, res, aspects, seed=0, tag="api", pol=None, sigprefix="a
         if optvariant and b["calls"][-1]["call"]["op"] in OPT_VARIANT and "valid2" not in str(b.get("fail2", 0)):
             # the cfg_opt_* form of the same call (option looked up with cfg_getopt first)
             last_cmd = "o" + last_cmd
+        if n % 3 == 1:
+            lines.append("errno 34")      # ambient errno left behind by an earlier, unrelated range error (set-from-text calls)
         lines.append(last_cmd)
         if "roundtrip" in aspects and b["calls"][-1]["exp"]["ret"] != "unspec":
             lines += ["print c1", "init c2 S %d" % FLAGBITS["COMMENTS"], "reparse c1 c2", "print c2",
